@@ -303,6 +303,7 @@ func init() {
 					}
 					c06Run(w, ops, nil)
 				}},
+				c06PairsSpace(),
 			}
 		},
 	})
